@@ -123,8 +123,16 @@ func genOp(r *core.Rand, u c05.Unit, pats, focus []c05.Seq) string {
 		text = c05.GenText(r, u, pats, 12)
 	}
 	tb := text.Bytes()
+	th := c05.Hex(tb)
+	if r.Chance(8) {
+		th = "^" // the previous result is the next text (chained calls)
+	}
+	if r.Chance(3) {
+		p := c05.RandSeq(r, u, 1, 3)
+		return "sibling " + c05.Hex(p.Bytes()) + " " + c05.Hex(cat(c05.RandSeq(r, u, 0, 2), p, text[:min(len(text), 4)], p).Bytes())
+	}
 	if r.Bool() {
-		return fmt.Sprintf("mask %s %d", c05.Hex(tb), masks[r.Intn(len(masks))])
+		return fmt.Sprintf("mask %s %d", th, masks[r.Intn(len(masks))])
 	}
 	var repl []byte
 	switch r.Pick(20, 25, 15, 15, 15, 10) {
@@ -144,7 +152,10 @@ func genOp(r *core.Rand, u c05.Unit, pats, focus []c05.Seq) string {
 			repl = []byte(text[r.Intn(len(text))])
 		}
 	}
-	return fmt.Sprintf("replace %s %s", c05.Hex(tb), c05.Hex(repl))
+	if th != "^" && r.Chance(3) {
+		return fmt.Sprintf("replace %s ^", th) // the previous result as the replacement
+	}
+	return fmt.Sprintf("replace %s %s", th, c05.Hex(repl))
 }
 
 // genHistory: Insert…, Build, calls, then 1–3 more rounds of Insert…, Build, dump, calls
@@ -163,6 +174,13 @@ func genHistory(r *core.Rand, tier string) core.Case {
 		}
 	}
 	lines := []string{c05.Header("C06", c05.SeqsBytes(pats))}
+	if r.Chance(6) {
+		lines[0] = strings.Replace(lines[0], " trie", " raw", 1) // inserted, not built
+		for n := r.Range(1, 2); n > 0; n-- {
+			lines = append(lines, genOp(r, u, pats, focus))
+		}
+		lines = append(lines, "build")
+	}
 	for n := r.Range(0, 2); n > 0; n-- {
 		lines = append(lines, genOp(r, u, pats, focus))
 	}
@@ -177,6 +195,13 @@ func genHistory(r *core.Rand, tier string) core.Case {
 		}
 		for _, p := range newp {
 			lines = append(lines, "insert "+c05.Hex(p.Bytes()))
+		}
+		if len(newp) > 0 && r.Chance(25) {
+			// calls before the rebuild: not judged; a panic is recovered
+			all := append(append([]c05.Seq{}, pats...), newp...)
+			for n := r.Range(1, 2); n > 0; n-- {
+				lines = append(lines, genOp(r, u, all, f2))
+			}
 		}
 		lines = append(lines, "build")
 		pats = append(pats, newp...)
